@@ -9,98 +9,156 @@ import (
 )
 
 // Auth (C41): the constants and the expiry / level comparisons of the auth native contract, regenerated from source.
+//
+// Sites are located by ROLE with the deep guarded walk of facts_headersync.go (same-package helpers followed, parameters
+// substituted by the caller's arguments, locals inlined, if/else / switch / early-return normalised to guard literals):
+//   * verifyToken: "the expiry literals on the path to the call <role functions>.ContainsFunc(fn)", once for the loop over
+//     the caller's permanent tokens (range over a `.tokens` field) and once for the loop over its delegation records
+//     (range over a `.status` field); a token is skipped when they do not all hold;
+//   * getAuthToken: "the expiry literals on the path to a return of a non-nil token" inside the loop over `.status`
+//     (and: none inside the loop over `.tokens`);
+//   * delegate: "the literals over the requested level, the delegator's level and the two expiry times on the path to the
+//     call putDelegateStatus(..)"; the equality test of the delegator's level is the outer guard, the rest the inner one.
+// Expiry times / levels are recognised as struct fields (`<..>.expireTime`, `<..>.level`, `<..>.Time`), never by the
+// names of locals; a mutable local is resolved through its only field assignment (`fromLevel = fromToken.level`).
 func init() { Register("Auth", genAuth) }
 
-const authFile = "smartcontract/service/native/auth/auth.go"
+const authDir = "smartcontract/service/native/auth"
 
-// authBoolToLean translates a Go boolean expression built from && || ! ( ) and integer comparisons into a Lean Bool term.
-func authBoolToLean(fset *token.FileSet, e ast.Expr, atoms map[string]string) (string, error) {
-	switch x := e.(type) {
-	case *ast.ParenExpr:
-		return authBoolToLean(fset, x.X, atoms)
-	case *ast.UnaryExpr:
-		if x.Op == token.NOT {
-			in, err := authBoolToLean(fset, x.X, atoms)
-			if err != nil {
-				return "", err
+// literals that may sit on a path without being a fact: nil tests, error tests, role equality, boolean helper results
+func authNeutral(fset *token.FileSet, c cond) bool {
+	e := stripParens(c.e)
+	if be, ok := e.(*ast.BinaryExpr); ok && (be.Op == token.EQL || be.Op == token.NEQ) {
+		for _, side := range []ast.Expr{be.X, be.Y} {
+			if id, ok := stripParens(side).(*ast.Ident); ok && id.Name == "nil" {
+				return true
 			}
-			return "(!" + in + ")", nil
 		}
-	case *ast.BinaryExpr:
-		switch x.Op {
-		case token.LAND, token.LOR:
-			l, err := authBoolToLean(fset, x.X, atoms)
-			if err != nil {
-				return "", err
-			}
-			r, err := authBoolToLean(fset, x.Y, atoms)
-			if err != nil {
-				return "", err
-			}
-			return "(" + l + " " + x.Op.String() + " " + r + ")", nil
-		case token.LSS, token.LEQ, token.GTR, token.GEQ, token.EQL, token.NEQ:
-			l, err := intExprToLean(fset, x.X, atoms)
-			if err != nil {
-				return "", err
-			}
-			r, err := intExprToLean(fset, x.Y, atoms)
-			if err != nil {
-				return "", err
-			}
-			op := map[token.Token]string{token.LSS: "<", token.LEQ: "≤", token.GTR: ">", token.GEQ: "≥", token.EQL: "=", token.NEQ: "≠"}[x.Op]
-			return "(decide (" + l + " " + op + " " + r + "))", nil
+		if ce, ok := stripParens(be.X).(*ast.CallExpr); ok && flat(fset, ce.Fun) == "bytes.Compare" {
+			return true
 		}
 	}
-	return "", fmt.Errorf("unsupported boolean expression shape: %s", exprString(fset, e))
+	switch x := e.(type) {
+	case *ast.CallExpr:
+		f := flat(fset, x.Fun)
+		return f == "bytes.Equal" || strings.HasSuffix(f, "VerifyID")
+	case *ast.Ident:
+		return true // a boolean local (`granted`, `ret`, `fromHasRole` ...)
+	}
+	return false
 }
 
-// authCondWith returns the n-th `if` condition inside fn whose printed form contains `has`.
-func authCondWith(fset *token.FileSet, fn *ast.FuncDecl, has string, n int) (ast.Expr, error) {
-	var found []ast.Expr
-	ast.Inspect(fn.Body, func(nd ast.Node) bool {
-		if ifs, ok := nd.(*ast.IfStmt); ok && strings.Contains(exprString(fset, ifs.Cond), has) {
-			found = append(found, ifs.Cond)
+// the loop of the ENTRY function a site was reached from, classified by the field it ranges over
+func authLoopClass(fset *token.FileSet, entry *ast.FuncDecl, root ast.Stmt) string {
+	cls := ""
+	ast.Inspect(entry.Body, func(n ast.Node) bool {
+		if n == nil {
+			return true
+		}
+		if n.Pos() > root.Pos() || n.End() < root.End() {
+			return false // only nodes that contain root
+		}
+		if rs, ok := n.(*ast.RangeStmt); ok {
+			x := flat(fset, rs.X)
+			switch {
+			case strings.HasSuffix(x, ".tokens"):
+				cls = "tokens"
+			case strings.HasSuffix(x, ".status"):
+				cls = "status"
+			default:
+				cls = "?" + x
+			}
 		}
 		return true
 	})
-	if len(found) <= n {
-		return nil, fmt.Errorf("%s:%s: if-condition #%d containing %q not found", authFile, fn.Name.Name, n, has)
-	}
-	return found[n], nil
+	return cls
 }
 
-// authOperand splits `a OP b` and returns the operand (0 = left, 1 = right), checking OP.
-func authOperand(fset *token.FileSet, e ast.Expr, op token.Token, side int, site string) (ast.Expr, error) {
-	be, ok := e.(*ast.BinaryExpr)
-	if !ok || be.Op != op {
-		return nil, fmt.Errorf("%s: expected `a %s b`, found %s", site, op, exprString(fset, e))
+func authExpiryAtom(s string) (string, bool) {
+	if !dgPureRef(s) {
+		return "", false
 	}
-	if side == 0 {
-		return be.X, nil
+	switch {
+	case strings.HasSuffix(s, ".expireTime"):
+		return "expire", true
+	case strings.HasSuffix(s, ".Time"):
+		return "now", true
 	}
-	return be.Y, nil
+	return "", false
+}
+
+// conjunction of literals as a Lean Bool, left-associated; "true" when empty
+func authConj(fset *token.FileSet, lits []cond, atom func(string) (string, bool)) (string, error) {
+	out := ""
+	for _, l := range lits {
+		s, err := dgLitToLean(fset, l, atom)
+		if err != nil {
+			return "", err
+		}
+		if out == "" {
+			out = s
+		} else {
+			out = "(" + out + " && " + s + ")"
+		}
+	}
+	if out == "" {
+		return "true", nil
+	}
+	return out, nil
+}
+
+// "skipped unless all literals hold": a single literal is printed without double negation so that
+// `if expired { continue }` and `if !expired { use }` give the same text
+func authSkip(fset *token.FileSet, lits []cond, atom func(string) (string, bool)) (string, error) {
+	if len(lits) == 1 {
+		return dgLitToLean(fset, dgNegate(lits[0]), atom)
+	}
+	c, err := authConj(fset, lits, atom)
+	if err != nil {
+		return "", err
+	}
+	return "(!" + c + ")", nil
+}
+
+func authSrc(fset *token.FileSet, lits []cond) string {
+	var s []string
+	for _, l := range lits {
+		t := flat(fset, l.e)
+		if !l.pos {
+			t = "!(" + t + ")"
+		}
+		s = append(s, t)
+	}
+	return strings.Join(s, " && ")
 }
 
 func genAuth(repo string) (string, error) {
-	fset, f, err := parseFile(repo, authFile)
+	fset, funcs, err := pkgFuncs(repo, authDir)
 	if err != nil {
 		return "", err
 	}
 	var sb strings.Builder
 	sb.WriteString("set_option linter.unusedVariables false\nnamespace OntVerif.Gen.Auth\n\n")
 
-	// future = time.Date(y, m, d, h, mi, s, ns, time.UTC)
-	fv, err := ongTopValue(f, authFile, "future")
-	if err != nil {
-		return "", err
+	// ---- future = time.Date(y, m, d, h, mi, s, ns, time.UTC) (package-level var, any file of the package)
+	var fv ast.Expr
+	{
+		_, f, err := parseFile(repo, authDir+"/auth.go")
+		if err != nil {
+			return "", err
+		}
+		fv, err = ongTopValue(f, authDir+"/auth.go", "future")
+		if err != nil {
+			return "", err
+		}
 	}
 	dc, ok := fv.(*ast.CallExpr)
-	if !ok || exprString(fset, dc.Fun) != "time.Date" || len(dc.Args) != 8 || exprString(fset, dc.Args[7]) != "time.UTC" {
-		return "", fmt.Errorf("%s: future: expected time.Date(y, m, d, h, mi, s, ns, time.UTC), found %s", authFile, exprString(fset, fv))
+	if !ok || flat(fset, dc.Fun) != "time.Date" || len(dc.Args) != 8 || flat(fset, dc.Args[7]) != "time.UTC" {
+		return "", fmt.Errorf("%s: future: expected time.Date(y, m, d, h, mi, s, ns, time.UTC), found %s", authDir, flat(fset, fv))
 	}
 	var nums [7]int
 	for i := 0; i < 7; i++ {
-		v, err := ongIntLit(dc.Args[i], authFile+":future")
+		v, err := ongIntLit(dc.Args[i], authDir+":future")
 		if err != nil {
 			return "", err
 		}
@@ -108,104 +166,288 @@ func genAuth(repo string) (string, error) {
 	}
 	t := time.Date(nums[0], time.Month(nums[1]), nums[2], nums[3], nums[4], nums[5], nums[6], time.UTC)
 	if t.Unix() < 0 || t.Unix() >= 1<<32 {
-		return "", fmt.Errorf("%s: future does not fit uint32", authFile)
+		return "", fmt.Errorf("%s: future does not fit uint32", authDir)
 	}
 	fmt.Fprintf(&sb, "/-- %s: `future` = %s, stored as `uint32(future.Unix())` in permanent tokens -/\ndef FUTURE : Nat := %d\n\n",
-		authFile, t.Format("2006-01-02T15:04:05Z"), t.Unix())
+		authDir, t.Format("2006-01-02T15:04:05Z"), t.Unix())
 
-	// assignToRole: token.expireTime = uint32(future.Unix()); token.level = <lit>
-	ar := findFunc(f, "assignToRole")
+	// ---- assignToRole: the permanent token's `.level = <lit>` and `.expireTime = uint32(future.Unix())`
+	ar := funcs["assignToRole"]
 	if ar == nil {
-		return "", fmt.Errorf("%s: func assignToRole not found", authFile)
+		return "", fmt.Errorf("%s: func assignToRole not found", authDir)
 	}
-	var lvl, exp ast.Expr
-	ast.Inspect(ar.Body, func(n ast.Node) bool {
-		if as, ok := n.(*ast.AssignStmt); ok && len(as.Lhs) == 1 && len(as.Rhs) == 1 {
-			switch exprString(fset, as.Lhs[0]) {
-			case "token.level":
-				lvl = as.Rhs[0]
-			case "token.expireTime":
-				exp = as.Rhs[0]
+	var lvls, exps []ast.Expr
+	field := func(name string, val ast.Expr) {
+		// the permanent token is the one built from constants: a literal level and an expiry derived from `future`
+		// (helpers reached from here also copy a delegation record's fields into a temporary token: not constants)
+		switch name {
+		case "level":
+			if _, isLit := stripConv(val).(*ast.BasicLit); isLit {
+				lvls = append(lvls, val)
+			}
+		case "expireTime":
+			if strings.Contains(flat(fset, val), "future") {
+				exps = append(exps, val)
+			}
+		}
+	}
+	for _, st := range dgSites(funcs, ar, 2) {
+		ast.Inspect(st.stmt, func(n ast.Node) bool {
+			switch x := n.(type) {
+			case *ast.AssignStmt:
+				if len(x.Lhs) == len(x.Rhs) {
+					for i, l := range x.Lhs {
+						if se, ok := l.(*ast.SelectorExpr); ok {
+							field(se.Sel.Name, st.f.norm(x.Rhs[i]))
+						}
+					}
+				}
+			case *ast.CompositeLit: // &AuthToken{level: 2, expireTime: ...}
+				for _, el := range x.Elts {
+					if kv, ok := el.(*ast.KeyValueExpr); ok {
+						if id, ok := kv.Key.(*ast.Ident); ok {
+							field(id.Name, st.f.norm(kv.Value))
+						}
+					}
+				}
+			}
+			return true
+		})
+	}
+	if len(lvls) != 1 || len(exps) != 1 {
+		return "", fmt.Errorf("%s:assignToRole: expected one assignment to a .level and one to an .expireTime field, found %d / %d", authDir, len(lvls), len(exps))
+	}
+	if s := flat(fset, stripParens(exps[0])); s != "uint32(future.Unix())" {
+		return "", fmt.Errorf("%s:assignToRole: token expireTime = %s, expected uint32(future.Unix())", authDir, s)
+	}
+	lv, err := ongIntLit(stripConv(lvls[0]), authDir+":assignToRole:token.level")
+	if err != nil {
+		return "", err
+	}
+	fmt.Fprintf(&sb, "/-- %s:assignToRole — `token.level = %d` -/\ndef permanentLevel : Nat := %d\n\n", authDir, lv, lv)
+
+	// ---- verifyToken: expiry literals on the path to <funcs>.ContainsFunc(fn), per loop
+	vt := funcs["verifyToken"]
+	if vt == nil {
+		return "", fmt.Errorf("%s: func verifyToken not found", authDir)
+	}
+	skip := map[string]string{}
+	hasContains := func(n ast.Node) bool {
+		has := false
+		ast.Inspect(n, func(n ast.Node) bool {
+			if ce, ok := n.(*ast.CallExpr); ok {
+				if se, ok := ce.Fun.(*ast.SelectorExpr); ok && se.Sel.Name == "ContainsFunc" {
+					has = true
+				}
+			}
+			return true
+		})
+		return has
+	}
+	for _, st := range dgSites(funcs, vt, 3) {
+		// the consultation is either inside the statement (`return funcs.ContainsFunc(fn), nil`) or a guard of it
+		// (`if funcs.ContainsFunc(fn) { return true, nil }`); the path is what guards the consultation
+		path := st.guards
+		if !hasContains(st.stmt) {
+			k := -1
+			for i, g := range st.guards {
+				if hasContains(g.e) {
+					k = i
+					break
+				}
+			}
+			if k < 0 {
+				continue
+			}
+			path = st.guards[:k]
+		}
+		st.guards = path
+		cls := authLoopClass(fset, vt, st.root)
+		if cls != "tokens" && cls != "status" {
+			return "", fmt.Errorf("%s:verifyToken: ContainsFunc is consulted outside the loops over .tokens / .status (%q)", authDir, cls)
+		}
+		var lits []cond
+		for _, l := range dgLiterals(st.guards) {
+			switch {
+			case dgMentions(fset, l.e, authExpiryAtom, "expire"):
+				lits = append(lits, l)
+			case authNeutral(fset, l):
+			default:
+				return "", fmt.Errorf("%s:verifyToken: condition on the path to ContainsFunc not understood: %s", authDir, flat(fset, l.e))
+			}
+		}
+		lean, err := authSkip(fset, lits, authExpiryAtom)
+		if err != nil {
+			return "", fmt.Errorf("%s:verifyToken: %v", authDir, err)
+		}
+		if len(lits) == 0 {
+			lean = "false"
+		}
+		if old, dup := skip[cls]; dup && old != lean {
+			return "", fmt.Errorf("%s:verifyToken: two different expiry tests in the loop over .%s", authDir, cls)
+		}
+		skip[cls] = lean
+	}
+	for _, c := range []struct{ cls, lean, doc string }{
+		{"tokens", "tokenSkipped", "a permanent token is skipped when this holds"},
+		{"status", "statusSkipped", "a delegation record is skipped when this holds"},
+	} {
+		lean, ok := skip[c.cls]
+		if !ok {
+			return "", fmt.Errorf("%s:verifyToken: no ContainsFunc consultation found in the loop over .%s", authDir, c.cls)
+		}
+		fmt.Fprintf(&sb, "/-- %s:verifyToken — %s (expiry test on the path to ContainsFunc, loop over .%s) -/\ndef %s (expire now : Nat) : Bool := %s\n\n",
+			authDir, c.doc, c.cls, c.lean, lean)
+	}
+
+	// ---- getAuthToken: expiry literals on the path to a return of a non-nil token
+	ga := funcs["getAuthToken"]
+	if ga == nil {
+		return "", fmt.Errorf("%s: func getAuthToken not found", authDir)
+	}
+	live := ""
+	for _, st := range dgSites(funcs, ga, 2) {
+		r, ok := st.stmt.(*ast.ReturnStmt)
+		if !ok || st.f.fn != ga || len(r.Results) != 2 {
+			continue
+		}
+		if id, ok := stripParens(r.Results[0]).(*ast.Ident); ok && id.Name == "nil" {
+			continue
+		}
+		cls := authLoopClass(fset, ga, st.root)
+		var lits []cond
+		for _, l := range dgLiterals(st.guards) {
+			switch {
+			case dgMentions(fset, l.e, authExpiryAtom, "expire"):
+				lits = append(lits, l)
+			case authNeutral(fset, l):
+			default:
+				return "", fmt.Errorf("%s:getAuthToken: condition on the path to a returned token not understood: %s", authDir, flat(fset, l.e))
+			}
+		}
+		switch cls {
+		case "tokens":
+			if len(lits) != 0 {
+				return "", fmt.Errorf("%s:getAuthToken: a permanent token is returned under an expiry test (%s); the model has none", authDir, authSrc(fset, lits))
+			}
+		case "status":
+			lean, err := authConj(fset, lits, authExpiryAtom)
+			if err != nil {
+				return "", fmt.Errorf("%s:getAuthToken: %v", authDir, err)
+			}
+			if live != "" && live != lean {
+				return "", fmt.Errorf("%s:getAuthToken: two different liveness tests for delegation records", authDir)
+			}
+			live = lean
+		default:
+			return "", fmt.Errorf("%s:getAuthToken: a token is returned outside the loops over .tokens / .status (%q)", authDir, cls)
+		}
+	}
+	if live == "" {
+		return "", fmt.Errorf("%s:getAuthToken: no token returned from the loop over .status", authDir)
+	}
+	fmt.Fprintf(&sb, "/-- %s:getAuthToken — a delegation record of the role counts as a (temporary) token when this holds (expiry test on the path to the returned token) -/\ndef delegationLive (expire now : Nat) : Bool := %s\n\n",
+		authDir, live)
+
+	// ---- delegate: literals over level / delegator's level / expiry times on the path to putDelegateStatus(..)
+	dg := funcs["delegate"]
+	if dg == nil {
+		return "", fmt.Errorf("%s: func delegate not found", authDir)
+	}
+	ps := paramNames(dg)
+	if len(ps) != 8 {
+		return "", fmt.Errorf("%s:delegate: expected 8 parameters (.., period, level, keyNo), found %d", authDir, len(ps))
+	}
+	levelParam := ps[6]
+	// the local stored into the new record's .expireTime is the requested expiry; mutable locals fed from a token's
+	// .level / .expireTime are the delegator's level / expiry
+	roleOf := map[string]string{levelParam: "level"}
+	ast.Inspect(dg.Body, func(n ast.Node) bool {
+		as, ok := n.(*ast.AssignStmt)
+		if !ok || len(as.Lhs) != len(as.Rhs) {
+			return true
+		}
+		for i, l := range as.Lhs {
+			r := stripConv(as.Rhs[i])
+			if se, ok := l.(*ast.SelectorExpr); ok && se.Sel.Name == "expireTime" {
+				if id, ok := r.(*ast.Ident); ok {
+					roleOf[id.Name] = "expire"
+				}
+			}
+			if id, ok := l.(*ast.Ident); ok {
+				if se, ok := r.(*ast.SelectorExpr); ok {
+					switch se.Sel.Name {
+					case "level":
+						roleOf[id.Name] = "fromLevel"
+					case "expireTime":
+						roleOf[id.Name] = "fromExpire"
+					}
+				}
 			}
 		}
 		return true
 	})
-	if lvl == nil || exp == nil {
-		return "", fmt.Errorf("%s:assignToRole: assignments to token.level / token.expireTime not found", authFile)
+	dgAtom := func(s string) (string, bool) {
+		if v, ok := roleOf[s]; ok {
+			return v, true
+		}
+		if !dgPureRef(s) {
+			return "", false
+		}
+		switch {
+		case strings.HasSuffix(s, ".level"):
+			return "fromLevel", true
+		case strings.HasSuffix(s, ".expireTime"):
+			return "fromExpire", true
+		}
+		return "", false
 	}
-	if s := exprString(fset, exp); s != "uint32(future.Unix())" {
-		return "", fmt.Errorf("%s:assignToRole: token.expireTime = %s, expected uint32(future.Unix())", authFile, s)
+	var outer, inner []cond
+	found := 0
+	for _, st := range dgSites(funcs, dg, 2) {
+		has := false
+		ast.Inspect(st.stmt, func(n ast.Node) bool {
+			if ce, ok := n.(*ast.CallExpr); ok && flat(fset, ce.Fun) == "putDelegateStatus" {
+				has = true
+			}
+			return true
+		})
+		if !has {
+			continue
+		}
+		found++
+		var o, in []cond
+		for _, l := range dgLiterals(st.guards) {
+			if !dgMentions(fset, l.e, dgAtom, "level", "fromLevel", "fromExpire") {
+				continue // signature / id / overflow / error / role tests: not facts of this group (tied by the harness)
+			}
+			be, isCmp := stripParens(l.e).(*ast.BinaryExpr)
+			if isCmp && be.Op == token.EQL && l.pos && dgMentions(fset, l.e, dgAtom, "fromLevel") && !dgMentions(fset, l.e, dgAtom, "level", "fromExpire", "expire") {
+				o = append(o, l)
+			} else {
+				in = append(in, l)
+			}
+		}
+		if found > 1 && (authSrc(fset, o) != authSrc(fset, outer) || authSrc(fset, in) != authSrc(fset, inner)) {
+			return "", fmt.Errorf("%s:delegate: putDelegateStatus is reached under different level/expiry conditions", authDir)
+		}
+		outer, inner = o, in
 	}
-	lv, err := ongIntLit(lvl, authFile+":assignToRole:token.level")
-	if err != nil {
-		return "", err
+	if found == 0 {
+		return "", fmt.Errorf("%s:delegate: call putDelegateStatus(..) not found", authDir)
 	}
-	fmt.Fprintf(&sb, "/-- %s:assignToRole — `token.level = %d` -/\ndef permanentLevel : Nat := %d\n\n", authFile, lv, lv)
-
-	// verifyToken: `funcs == nil || token.expireTime < native.Time`, `funcs == nil || s.expireTime < native.Time`
-	vt := findFunc(f, "verifyToken")
-	if vt == nil {
-		return "", fmt.Errorf("%s: func verifyToken not found", authFile)
-	}
-	for _, c := range []struct{ lean, has, doc string }{
-		{"tokenSkipped", "token.expireTime", "a permanent token is skipped when this holds"},
-		{"statusSkipped", "s.expireTime", "a delegation record is skipped when this holds"},
+	for _, c := range []struct {
+		lean, doc string
+		lits      []cond
+	}{
+		{"delegateOuter", "outer guard: equality test(s) on the delegator's level on the path to putDelegateStatus", outer},
+		{"delegateInner", "inner guard: the other level / expiry literals on the path to putDelegateStatus", inner},
 	} {
-		cond, err := authCondWith(fset, vt, c.has, 0)
+		lean, err := authConj(fset, c.lits, dgAtom)
 		if err != nil {
-			return "", err
+			return "", fmt.Errorf("%s:delegate: %v", authDir, err)
 		}
-		if l, err := authOperand(fset, cond, token.LOR, 0, authFile+":verifyToken"); err != nil || exprString(fset, l) != "funcs == nil" {
-			return "", fmt.Errorf("%s:verifyToken: expected `funcs == nil || <expiry test>`, found %s", authFile, exprString(fset, cond))
-		}
-		rhs, _ := authOperand(fset, cond, token.LOR, 1, "")
-		lean, err := authBoolToLean(fset, rhs, map[string]string{c.has: "expire", "native.Time": "now"})
-		if err != nil {
-			return "", fmt.Errorf("%s:verifyToken: %v", authFile, err)
-		}
-		fmt.Fprintf(&sb, "/-- %s:verifyToken — %s. Go source: `%s` -/\ndef %s (expire now : Nat) : Bool := %s\n\n", authFile, c.doc, exprString(fset, rhs), c.lean, lean)
-	}
-
-	// getAuthToken: `bytes.Compare(s.role, role) == 0 && native.Time < s.expireTime`
-	ga := findFunc(f, "getAuthToken")
-	if ga == nil {
-		return "", fmt.Errorf("%s: func getAuthToken not found", authFile)
-	}
-	cond, err := authCondWith(fset, ga, "s.expireTime", 0)
-	if err != nil {
-		return "", err
-	}
-	if l, err := authOperand(fset, cond, token.LAND, 0, authFile+":getAuthToken"); err != nil || exprString(fset, l) != "bytes.Compare(s.role, role) == 0" {
-		return "", fmt.Errorf("%s:getAuthToken: expected `bytes.Compare(s.role, role) == 0 && <liveness test>`, found %s", authFile, exprString(fset, cond))
-	}
-	rhs, _ := authOperand(fset, cond, token.LAND, 1, "")
-	lean, err := authBoolToLean(fset, rhs, map[string]string{"s.expireTime": "expire", "native.Time": "now"})
-	if err != nil {
-		return "", fmt.Errorf("%s:getAuthToken: %v", authFile, err)
-	}
-	fmt.Fprintf(&sb, "/-- %s:getAuthToken — a delegation record of the role counts as a (temporary) token when this holds. Go source: `%s` -/\ndef delegationLive (expire now : Nat) : Bool := %s\n\n",
-		authFile, exprString(fset, rhs), lean)
-
-	// delegate: `if fromLevel == 2 {` and `if level < fromLevel && level > 0 && expireTime < fromExpireTime {`
-	dg := findFunc(f, "delegate")
-	if dg == nil {
-		return "", fmt.Errorf("%s: func delegate not found", authFile)
-	}
-	atoms := map[string]string{"fromLevel": "fromLevel", "level": "level", "expireTime": "expire", "fromExpireTime": "fromExpire"}
-	for _, c := range []struct{ lean, has, doc string }{
-		{"delegateOuter", "fromLevel == ", "outer guard"},
-		{"delegateInner", "fromExpireTime", "inner guard"},
-	} {
-		cond, err := authCondWith(fset, dg, c.has, 0)
-		if err != nil {
-			return "", err
-		}
-		lean, err := authBoolToLean(fset, cond, atoms)
-		if err != nil {
-			return "", fmt.Errorf("%s:delegate: %v", authFile, err)
-		}
-		fmt.Fprintf(&sb, "/-- %s:delegate — %s. Go source: `%s` -/\ndef %s (fromLevel level expire fromExpire : Nat) : Bool := %s\n\n",
-			authFile, c.doc, exprString(fset, cond), c.lean, lean)
+		fmt.Fprintf(&sb, "/-- %s:delegate — %s -/\ndef %s (fromLevel level expire fromExpire : Nat) : Bool := %s\n\n", authDir, c.doc, c.lean, lean)
 	}
 	sb.WriteString("end OntVerif.Gen.Auth\n")
 	return sb.String(), nil
